@@ -434,3 +434,6 @@ def parts(tier):
         HypPart('las-layouts', cases(), check, 1800, 48000),
         HypPart('las-small', cases(max_curves=3, max_frames=4), check, 600, 16000),
     ]
+
+
+RULE += '  Added after the seeding rounds: the same text read through a file path (platform text encoding), one time in two with a degree sign in a description and a micro sign in a unit.'
